@@ -105,7 +105,8 @@ theorem runModel_refines (c : Call) (s : BmcState) (hc : c.InRange) (hw : s.Wf) 
   | setBootOptions dev efi pers =>
     simpa [runModel, opOf, opOfV, run, present, Result.toOutcome] using set_boot_options_refines dev efi pers s
   | getLanParam ch sel setSel blk rev =>
-    simpa [runModel, opOf, opOfV, run, present, Result.toOutcome] using get_lan_config_param_refines ch sel setSel blk rev s hc
+    have := get_lan_config_param_refines ch sel setSel blk rev s hc
+    cases rev <;> simpa [runModel, opOf, opOfV, run, present, Result.toOutcome] using this
   | setLanParam ch sel data =>
     simpa [runModel, opOf, opOfV, run, present, Result.toOutcome] using set_lan_config_param_refines ch sel data s hc.1 hc.2.1
   | getIp ch => simpa [runModel, opOf, opOfV, run, present, Result.toOutcome] using get_ip_address_refines ch s hc
@@ -199,9 +200,7 @@ theorem runModel_refines (c : Call) (s : BmcState) (hc : c.InRange) (hw : s.Wf) 
   | querySelftestResults =>
     simpa [runModel, opOf, opOfV, run, present, Result.toOutcome] using query_selftest_results_refines s hw.hpmSelftest2
   | queryRollbackStatus =>
-    have := query_rollback_status_refines s
-    rcases he : s.hpm.rollbackEstimate with _ | _ | n <;>
-      simpa [runModel, opOf, opOfV, run, present, Result.toOutcome, he] using this
+    simpa [runModel, opOf, opOfV, run, present, Result.toOutcome] using query_rollback_status_refines s
 
 /-! ### reads leave the BMC untouched -/
 
@@ -215,8 +214,8 @@ theorem run_read (c : Call) (s : BmcState) (h : c.isRead = true) : (run c s).1 =
 /-! ### the invariant holds initially and is preserved -/
 
 theorem wf_init : ({} : BmcState).Wf := by
-  refine ⟨⟨?_, ?_, ?_, ?_, ?_, ?_, ?_, ?_, ?_⟩, ?_, ⟨?_, ?_, ?_, ?_, ?_⟩, ⟨?_, ?_⟩, ?_, ?_, ?_, ?_, ?_, ?_, ?_, ?_, ?_, ?_, ?_, ?_, ?_,
-    ?_, ?_, ?_, ?_⟩ <;> first | decide | exact Map.All.empty _ | (intro a h; cases h)
+  refine ⟨⟨?_, ?_, ?_, ?_, ?_, ?_, ?_, ?_, ?_⟩, ?_, ⟨?_, ?_, ?_, ?_, ?_⟩, ⟨?_, ?_⟩, ?_, ?_, ?_, ?_, ?_, ?_, ?_, ?_, ?_, ?_, ?_, ?_, ?_, ?_,
+    ?_, ?_, ?_, ?_, ?_, ?_⟩ <;> first | decide | exact Map.All.empty _ | (intro a h; cases h)
 
 theorem wf_withUser (uid : Nat) (s s' : BmcState) (r : Result) (hw : s.Wf) (hw' : s'.Wf) : (withUser uid s (s', r)).1.Wf := by
   unfold withUser; split <;> assumption
